@@ -56,6 +56,18 @@
 (*  D10 Provider = "generic": DBAPIProvider/Pool as used by the other      *)
 (*     providers: no lock, no BEGIN statement, the DB-API connection opens *)
 (*     a transaction implicitly at the first statement.                    *)
+(*  D11 Database.commit()/flush_and_commit and the decorator form called   *)
+(*     inside another session (a plain call) have no actions of their own; *)
+(*     the latter's scalar behaviour is in PonyTxnScenarios (nest = 2).    *)
+(*  D12 a generator session that ends with an allowed exception rolls back *)
+(*     (as the code does); CommitIffSuccess permits but does not require   *)
+(*     a commit there.                                                     *)
+(*                                                                         *)
+(* Bounded checking.  Connection ids, write ids and the fault budget       *)
+(* (fowner: the one actor whose DB-API calls may fail, chosen in Init) are *)
+(* per actor, so that actions of different actors commute except lock      *)
+(* acquisition; Reduce = TRUE exploits this (see MyTurn) and lets End      *)
+(* forget a finished session.  Trace validation uses Reduce = FALSE.       *)
 (***************************************************************************)
 EXTENDS PonyTxnConst, Naturals, Sequences, FiniteSets, TLC
 
